@@ -610,7 +610,7 @@ fn contains_jsonb(left: &[u8], right: &[u8]) -> Result<bool, Error> {
                         }
                         let l_val = &left[l_val_offset..l_val_offset + l_jentry.length as usize];
                         if r_jentry.type_code != CONTAINER_TAG {
-                            if !l_val.eq(r_val) {
+                            if !scalar_payload_eq(r_jentry.type_code, l_val, r_val) {
                                 return Ok(false);
                             }
                         } else if !contains_jsonb(l_val, r_val)? {
@@ -649,8 +649,24 @@ fn contains_jsonb(left: &[u8], right: &[u8]) -> Result<bool, Error> {
             }
             Ok(true)
         }
-        _ => Ok(left.eq(right)),
+        _ => {
+            let l_jentry = JEntry::decode_jentry(read_u32(left, 4)?);
+            let r_jentry = JEntry::decode_jentry(read_u32(right, 4)?);
+            Ok(l_jentry.type_code == r_jentry.type_code
+                && scalar_payload_eq(l_jentry.type_code, &left[8..], &right[8..]))
+        }
     }
+}
+
+// Scalars of the same type are equal if their payloads are equal, numbers are
+// compared by value because equal numbers can have different encodings (1 and 1.0).
+fn scalar_payload_eq(type_code: u32, left: &[u8], right: &[u8]) -> bool {
+    if type_code == NUMBER_TAG {
+        if let (Ok(left), Ok(right)) = (Number::decode(left), Number::decode(right)) {
+            return left == right;
+        }
+    }
+    left.eq(right)
 }
 
 fn get_jentry_by_name(
@@ -3184,7 +3200,7 @@ fn array_contains(arr: &[u8], arr_header: u32, val: &[u8], val_jentry: JEntry) -
         if jentry.type_code != val_jentry.type_code {
             continue;
         }
-        if val.eq(arr_val) {
+        if scalar_payload_eq(val_jentry.type_code, val, arr_val) {
             return true;
         }
     }
